@@ -23,6 +23,10 @@ CHECKS = {
  'C15': dict(level=MC, tech='relational TLA+ contract (Scale.tla: round trip, successor, month length, weekday) model-checked for discrimination; exhaustive trace validation of every (scale, day) conversion of the real code',
    text='E1: TLC shows on a synthetic lunar calendar that the step relation accepts exactly the true successor date. E2: for each of the 10 scales every Gregorian day of 1901-2099 (thorough: all 72 684; quick: every 5th year plus all month boundaries) is converted by the real echs_instant_rescale and back, with echs_scale_ndim/echs_scale_wday recorded; TLC checks on consecutive lines: G(H(d)) = d, H(d+1) = Succ(H(d)) (which with day <= ndim makes ndim the distance between firsts), weekday equality against Cal.tla, month in 1..12, and that rejected days never lie inside the accepted span.',
    note='trusted: TLC, Cal.tla weekday, printing-only driver. No external Hijri reference is used (none exists offline): the data tables themselves are not audited, only their consistency.', ref='3/C15'),
+
+ 'C07': dict(level=MC, tech='TLA+ zone-table contract (TZ.tla: OffAt, LocalToUTC as the unique solution of u + OffAt(u) = l) model-checked for inverse/gap/overlap behaviour; trace validation of echs_instant_utc/loc/echs_tzob_offs against tables read by an independent TZif reader',
+   text='E1: TLC checks on a synthetic zone with a gap and an overlap that LocalToUTC inverts UTCToLocal on unambiguous times, gap times have no and overlap times two solutions. E2: for every zone (quick: 50 incl. 30/45-minute, southern, Jan/Feb-transition zones; thorough: all ~430 installed TZif files) the real conversions are recorded on both sides (+-1 s/h/d) of every transition 1902-2037, on the 1st/15th of each month of 14 years and at seeded random instants, in both directions, and judged by TLC against the zone table that gen/tzif.py reads from the same file; ambiguous wall-clock times are skipped by the spec.',
+   note='trusted: TLC, the RFC 8536 reader gen/tzif.py, printing-only driver. At most 50 zones per driver process (the code interns 64 zones per process by design). The event-level path (DTSTART;TZID through the rule expander) is covered through C01/C16 drivers, not here.', ref='3/C07'),
 }
 NA_REASON = 'check not built yet (construction in progress, see DESIGN.md section 10)'
 hooks = {'guard': 'HROPTATYR_ECHSE_VERIF', 'enable': 'no hooks in /repo: checks compile /repo/src as it is (harness/build.sh) and observe through existing seams', 'baseline_off_cmd': 'make -C /repo check', 'source_commits': [], 'add_only': True}
